@@ -97,6 +97,13 @@ def cases(tier):
     for st in ["r = fld(bundle, HEX_REG_FIELD_USR_OVF, a);", "r = fld(bundle, HEX_REG_FIELD_USR_FPRND, a);"]:
         out.append((rts, P(d, st, ["r"]), ("enum-pass", st)))
     rts = [R("vset", "void", ["HexInsnPktBundle *bundle", "int32_t v"], "{ set_usr_field(bundle, HEX_REG_FIELD_USR_FPRND, v); }")]
+    rts_v = rts + [R("absv", "int32_t", ["int32_t x"], "{ if (x > 0) { return x; } else { return -x; } }")]
+    # (the field is observed through the final USR value: reading it back inside the same behaviour returns the committed
+    # register in QEMU as well, so a read-back would test the helper model, not the call)
+    for st in ["vset(bundle, absv(a)); r = a;", "i = a; vset(bundle, i++); r = i;", "vset(bundle, clz32(a) + clo32(b)); r = b;",
+               "set_usr_field(bundle, HEX_REG_FIELD_USR_LPCFG, get_usr_field(bundle, HEX_REG_FIELD_USR_LPCFG) - 1); r = a;", "if (a) { vset(bundle, absv(b)); } r = b;",
+               "set_usr_field(bundle, HEX_REG_FIELD_USR_OVF, clz32(a) & 1); r = a;", "trap(0, clz32(a)); r = a;", "vset(bundle, absv(absv(a) - 3)); r = a;"]:
+        out.append((rts_v, P(d + [("int32_t", "i", "local")], st, ["r"]), ("void-hybrid-arg", st)))
     for st in ["vset(bundle, a); r = a;", "r = a; vset(bundle, a); vset(bundle, b);", "if (a) { vset(bundle, b); } r = b;"]:
         out.append((rts, P(d, st, ["r"]), ("void", st)))
     # caller locals named like callee locals / parameters must survive the call
